@@ -263,16 +263,9 @@ pub fn scenario(rng: &mut Rng, tier: Tier) -> Scenario {
     Scenario { subjects, paths, clock_start: CLOCK_FLOOR + rng.below(1 << 30), hash_seed: rng.next_u64(), ops }
 }
 
-/// Tokens of a rendering with the device string taken out, plus what it decoded to.
-struct Split {
-    tokens: Vec<Tok>,
-    device_index: usize,
-    device: String,
-}
-
-fn split_device(text: &str) -> Result<Split, String> {
-    let mut tokens = lex(text).map_err(|e| format!("the program does not tokenise: {e}"))?;
-    // balanced parentheses: the program must still be a sequence of complete forms
+/// Tokens of one rendering; the program must tokenise and have balanced parentheses.
+fn tokens_of(text: &str) -> Result<Vec<Tok>, String> {
+    let tokens = lex(text).map_err(|e| format!("the program does not tokenise: {e}"))?;
     let mut depth = 0i64;
     for t in &tokens {
         match t {
@@ -289,6 +282,14 @@ fn split_device(text: &str) -> Result<Split, String> {
     if depth != 0 {
         return Err("the program has unclosed parentheses".into());
     }
+    Ok(tokens)
+}
+
+/// Where a single rendering names its device, judged by position alone (used when a handle was
+/// only ever rendered for one path, so that no second rendering can point at the place): the
+/// first argument of the one `(lipe-scan ...)` call if it is a string literal, or the string a
+/// `let`/`let*` binds to the symbol found there.
+fn device_by_position(tokens: &[Tok]) -> Option<usize> {
     let scans: Vec<usize> = tokens
         .iter()
         .enumerate()
@@ -296,15 +297,16 @@ fn split_device(text: &str) -> Result<Split, String> {
         .map(|(i, _)| i)
         .collect();
     if scans.len() != 1 {
-        return Err(format!("expected exactly one (lipe-scan ...) call, found {}", scans.len()));
+        return None;
     }
-    let di = scans[0] + 1;
-    let device = match tokens.get(di) {
-        Some(Tok::Str(s)) => s.clone(),
-        other => return Err(format!("the first argument of lipe-scan is not a string literal: {other:?}")),
-    };
-    tokens[di] = Tok::Sym("<device>".into());
-    Ok(Split { tokens, device_index: di, device })
+    match tokens.get(scans[0] + 1) {
+        Some(Tok::Str(_)) => Some(scans[0] + 1),
+        Some(Tok::Sym(var)) => {
+            // ( var "..." ) somewhere before the call
+            (2..scans[0]).find(|&k| tokens[k - 2] == Tok::Open && tokens[k - 1] == Tok::Sym(var.clone()) && matches!(tokens[k], Tok::Str(_)) && tokens.get(k + 1) == Some(&Tok::Close))
+        }
+        _ => None,
+    }
 }
 
 fn show(path: &str) -> String {
@@ -324,13 +326,16 @@ struct Handle {
     table: Table,
     /// first render per path index: (op, text)
     renders: BTreeMap<usize, (usize, String)>,
-    /// token skeleton of the first successfully split render: (op, path index, tokens, device index)
-    skeleton: Option<(usize, usize, Vec<Tok>, usize)>,
+    /// tokens of the first rendering: (op, path index, tokens)
+    reference: Option<(usize, usize, Vec<Tok>)>,
+    /// index of the device string, once a rendering for a second path has pointed at it
+    device_index: Option<usize>,
 }
 
 pub fn judge(sc: &Scenario, obs: &[(usize, Obs)]) -> Judgement {
     let mut j = Judgement::default();
     let mut handles: BTreeMap<usize, Handle> = BTreeMap::new();
+    let mut retired: Vec<Handle> = vec![];
     let mut classes_seen = [false; 3];
     let mut distinct_paths_rendered: BTreeMap<usize, std::collections::BTreeSet<usize>> = BTreeMap::new();
 
@@ -345,7 +350,9 @@ pub fn judge(sc: &Scenario, obs: &[(usize, Obs)]) -> Judgement {
         // a render is either an explicit Render op or the FIXED_PATH render taken at compile time
         let render: Option<(usize, usize, &String)> = match o {
             Obs::Compiled { slot, text: Ok(t), table, .. } => {
-                handles.insert(*slot, Handle { compile_op: *i, table: table.clone(), renders: BTreeMap::new(), skeleton: None });
+                if let Some(old) = handles.insert(*slot, Handle { compile_op: *i, table: table.clone(), renders: BTreeMap::new(), reference: None, device_index: None }) {
+                    retired.push(old);
+                }
                 distinct_paths_rendered.remove(slot);
                 Some((*slot, 0, t))
             }
@@ -390,7 +397,6 @@ pub fn judge(sc: &Scenario, obs: &[(usize, Obs)]) -> Judgement {
             },
             1,
         );
-        distinct_paths_rendered.entry(slot).or_default().insert(path_idx);
         // P1 repeatability
         match h.renders.get(&path_idx) {
             Some((op0, t0)) => {
@@ -403,50 +409,146 @@ pub fn judge(sc: &Scenario, obs: &[(usize, Obs)]) -> Judgement {
                         show(path)
                     );
                 }
-                continue; // identical text: P2/P3 already checked on the first one
+                continue; // identical text: everything else was checked on the first one
             }
             None => {
                 h.renders.insert(path_idx, (*i, text.clone()));
             }
         }
-        // P3 / decode: the device string is the first argument of the scan call and decodes to the path
-        let split = match split_device(text) {
-            Ok(s) => s,
+        // the program still reads as a program
+        let tokens = match tokens_of(text) {
+            Ok(t) => t,
             Err(why) => {
-                fail!(
-                    "device-path-breaks-program",
-                    vec![h.compile_op, *i],
-                    "slot {slot}: rendering for {} at op {i}: {why}",
-                    show(path)
-                );
+                fail!("device-path-breaks-program", vec![h.compile_op, *i], "slot {slot}: rendering for {} at op {i}: {why}", show(path));
             }
         };
-        if split.device != *path {
-            fail!(
-                "device-path-decodes-differently",
-                vec![h.compile_op, *i],
-                "slot {slot}: rendering for {} at op {i}: the device string of the scan call decodes to {}",
-                show(path),
-                show(&split.device)
-            );
-        }
-        // P2 single point of variation
-        match &h.skeleton {
-            None => h.skeleton = Some((*i, path_idx, split.tokens, split.device_index)),
-            Some((op0, p0, toks0, di0)) => {
+        // P2 single point of variation, P3 decoding
+        match &h.reference {
+            None => h.reference = Some((*i, path_idx, tokens)),
+            Some((op0, p0, toks0)) => {
                 j.bump("path_pairs_compared", 1);
-                if *di0 != split.device_index || *toks0 != split.tokens {
-                    let at = toks0.iter().zip(split.tokens.iter()).position(|(a, b)| a != b).unwrap_or(toks0.len().min(split.tokens.len()));
+                let path0 = &sc.paths[*p0];
+                if toks0.len() != tokens.len() {
+                    let at = toks0.iter().zip(tokens.iter()).position(|(a, b)| a != b).unwrap_or(toks0.len().min(tokens.len()));
                     fail!(
                         "renderings-differ-beyond-device-path",
                         vec![h.compile_op, *op0, *i],
-                        "slot {slot}: renderings for {} (op {op0}) and {} (op {i}) differ outside the device string: token {at}: {:?} vs {:?} ({} vs {} tokens)",
-                        show(&sc.paths[*p0]),
+                        "slot {slot}: renderings for {} (op {op0}) and {} (op {i}) have {} and {} tokens; first difference at token {at}: {:?} vs {:?}",
+                        show(path0),
                         show(path),
-                        toks0.get(at),
-                        split.tokens.get(at),
                         toks0.len(),
-                        split.tokens.len()
+                        tokens.len(),
+                        toks0.get(at),
+                        tokens.get(at)
+                    );
+                }
+                let diff: Vec<usize> = (0..tokens.len()).filter(|&k| toks0[k] != tokens[k]).collect();
+                if path0 == path {
+                    // two path indices with equal text: must be the same program
+                    if !diff.is_empty() {
+                        fail!("render-not-repeatable", vec![h.compile_op, *op0, *i], "slot {slot}: two renderings for {} differ at token {}", show(path), diff[0]);
+                    }
+                    continue;
+                }
+                let expected = h.device_index;
+                match diff.as_slice() {
+                    [] => {
+                        fail!(
+                            "device-path-decodes-differently",
+                            vec![h.compile_op, *op0, *i],
+                            "slot {slot}: renderings for two different paths {} (op {op0}) and {} (op {i}) are the same program",
+                            show(path0),
+                            show(path)
+                        );
+                    }
+                    [d] => {
+                        let (a, b) = (&toks0[*d], &tokens[*d]);
+                        match (a, b) {
+                            (Tok::Str(sa), Tok::Str(sb)) => {
+                                if sa != path0 || sb != path {
+                                    let (shown_path, got) = if sb != path { (path, sb) } else { (path0, sa) };
+                                    fail!(
+                                        "device-path-decodes-differently",
+                                        vec![h.compile_op, *op0, *i],
+                                        "slot {slot}: the one string that differs between the renderings decodes to {} where the path given was {}",
+                                        show(got),
+                                        show(shown_path)
+                                    );
+                                }
+                            }
+                            _ => {
+                                fail!(
+                                    "renderings-differ-beyond-device-path",
+                                    vec![h.compile_op, *op0, *i],
+                                    "slot {slot}: renderings for {} and {} differ at token {d}, which is not a string literal in both: {:?} vs {:?}",
+                                    show(path0),
+                                    show(path),
+                                    a,
+                                    b
+                                );
+                            }
+                        }
+                        if let Some(e) = expected {
+                            if e != *d {
+                                fail!(
+                                    "renderings-differ-beyond-device-path",
+                                    vec![h.compile_op, *op0, *i],
+                                    "slot {slot}: the device string moved: token {e} in earlier renderings, token {d} in the rendering for {} at op {i}",
+                                    show(path)
+                                );
+                            }
+                        }
+                        h.device_index = Some(*d);
+                    }
+                    more => {
+                        fail!(
+                            "renderings-differ-beyond-device-path",
+                            vec![h.compile_op, *op0, *i],
+                            "slot {slot}: renderings for {} (op {op0}) and {} (op {i}) differ in {} places (tokens {:?}): e.g. {:?} vs {:?}",
+                            show(path0),
+                            show(path),
+                            more.len(),
+                            &more[..more.len().min(4)],
+                            toks0[more[more.len() - 1]],
+                            tokens[more[more.len() - 1]]
+                        );
+                    }
+                }
+            }
+        }
+        distinct_paths_rendered.entry(slot).or_default().insert(path_idx);
+    }
+    // handles that were only ever rendered for one path: judge the device string by position
+    for h in handles.values().chain(retired.iter()) {
+        if h.device_index.is_some() {
+            continue;
+        }
+        let Some((op0, p0, toks0)) = &h.reference else { continue };
+        let path0 = &sc.paths[*p0];
+        j.bump("single_path_handles_judged_by_position", 1);
+        let decoded: Option<&String> = device_by_position(toks0).and_then(|d| match &toks0[d] {
+            Tok::Str(s) => Some(s),
+            _ => None,
+        });
+        match decoded {
+            Some(s) if s == path0 => {}
+            Some(s) => {
+                fail!(
+                    "device-path-decodes-differently",
+                    vec![h.compile_op, *op0],
+                    "rendering for {} at op {op0}: the device string of the scan call decodes to {}",
+                    show(path0),
+                    show(s)
+                );
+            }
+            None => {
+                // unknown program shape: accept if the path appears as some string literal
+                if !toks0.iter().any(|t| matches!(t, Tok::Str(s) if s == path0)) {
+                    fail!(
+                        "device-path-decodes-differently",
+                        vec![h.compile_op, *op0],
+                        "rendering for {} at op {op0}: no string literal of the program decodes to the path",
+                        show(path0)
                     );
                 }
             }
